@@ -42,6 +42,11 @@ Definition dec_fix (d : dec) : dec :=
     then mkdec (Z.sgn (coef d) * (q1 / 10)) (dexp d + k + 1)
     else mkdec (Z.sgn (coef d) * q1) (dexp d + k).
 
+(* the rounding step of [dec_fix] on its own: round a / p to an integer, ties to even (used by the proofs and by [nearest64]) *)
+Definition rhe (a p : Z) : Z :=
+  let q := a / p in let r := a mod p in
+  if (2 * r >? p) || ((2 * r =? p) && Z.odd q) then q + 1 else q.
+
 (* Decimal.__mul__ *)
 Definition dec_mul (a b : dec) : dec := dec_fix (mkdec (coef a * coef b) (dexp a + dexp b)).
 
